@@ -21,6 +21,8 @@ mod runtime;
 mod stack;
 mod val;
 mod var;
+#[cfg(ae9rb_basic_lang_verif)]
+pub mod verif;
 
 pub use function::Function;
 pub use link::Link;
